@@ -162,6 +162,26 @@ def run(ctx):
             if a[0] != b[0]:
                 oracle_fail.append({"why": "the derived separators depend on the order in which Language and DecimalSeparator were set", "Language": lang, "DecimalSeparator": ds,
                                     "decimal_then_language": a[0], "language_then_decimal": b[0], "lines": a[1]})
+    # ... also when the language comes from the host (Language=Auto + LanguageAuto), whatever was set before
+    for lang in ["en", "de-ch", "es", "es-mx", "sv", "zz"]:
+        for ds in [",", ".", "Auto"]:
+            want = sep_by_order[(lang, ds, "lang-then-dec")][0] if (lang, ds, "lang-then-dec") in sep_by_order else None
+            if want is None:
+                rep = im.run([{"op": "session"}, {"op": "rules_dir", "dir": core.rules_dir()}, {"op": "set_pref", "name": "Language", "value": lang}, {"op": "set_pref", "name": "DecimalSeparator", "value": ds},
+                              {"op": "get_pref", "name": "DecimalSeparators"}, {"op": "get_pref", "name": "BlockSeparators"}])
+                want = [r.get("v") for r in rep[-2:]]
+            A, L, D = ("Language", "Auto"), ("LanguageAuto", lang), ("DecimalSeparator", ds)
+            for route in ([A, L, D], [D, A, L], [("DecimalSeparator", ","), A, L, D], [("Language", "fi"), D, A, L], [A, ("LanguageAuto", "fi"), D, L], [A, L, ("DecimalSeparator", "."), D]):
+                reqs = [{"op": "session"}, {"op": "rules_dir", "dir": core.rules_dir()}] + [{"op": "set_pref", "name": n, "value": v} for n, v in route] + \
+                    [{"op": "get_pref", "name": "DecimalSeparators"}, {"op": "get_pref", "name": "BlockSeparators"}]
+                rep = im.run(reqs)
+                evals += 1
+                if any(r.get("r") != "ok" for r in rep[2:-2]):
+                    continue
+                got = [r.get("v") for r in rep[-2:]]
+                if got != want:
+                    oracle_fail.append({"why": "the derived separators depend on the route by which the language and DecimalSeparator were set (Language=Auto + LanguageAuto)", "Language": lang, "DecimalSeparator": ds,
+                                        "route": [list(x) for x in route], "separators": got, "with_Language": want, "lines": reqs[1:]})
     for _ in range(n_hist):
         histories.append(gen_ops(rng, names, n_ops))
     all_names_probe = [("get", n) for n, _, _ in names]
